@@ -222,6 +222,10 @@ def datetime_add_shape(ctx, rule: str = "ADD") -> None:
         fwd = ", ".join(f"{q}={q}" for q in ADD_PARAMS)
         if callee.endswith("create"):
             k = core.kw(ret)
+            fd = k.get("fold")
+            ctx.ob(f"{rule}.calendar-exit", "DateTime.add/create/fold", fd is None or core.is_const(fd, 1),
+                   f"create(fold={nun(fd)}): a result landing in a gap or overlap is normalised by the construction rules "
+                   f"(default: later occurrence / forward), not by the fold the start value happens to carry", m.loc(ex[2]))
             ctx.ob(f"{rule}.calendar-exit", "DateTime.add/create/tz", "tz" in k and nun(k["tz"]) in ("self.tz", "self.tzinfo"),
                    f"tz={nun(k.get('tz'))}; the wall-clock result is re-created in the instance's zone", m.loc(ex[2]))
             want = f"add_duration({naive_copy}, {fwd})"
